@@ -67,6 +67,8 @@ func BulkOps() []BulkOp {
 		// the new value differs from the old one only in its Go type (1 -> 1.0), or not at all: still an update of every matched document
 		mk("update-type-only", m.Op{K: "update", Q: all(m.Leaf("eq", "g", int64(1))), Set: map[string]interface{}{"g": float64(1), "x": float64(2)}}),
 		mk("updatefunc-same-value", m.Op{K: "updateFunc", Q: all(m.Leaf("eq", "g", int64(2))), Upd: upd("inplace", "g", int64(2))}),
+		// two indexed fields rewritten at once; some documents already hold one of the two values (x == 1), later ones do not
+		mk("update-two-indexed-fields", m.Op{K: "update", Q: all(nil), Set: map[string]interface{}{"x": int64(1), "xy": int64(0)}}),
 		mk("updatefunc-remove", m.Op{K: "updateFunc", Q: all(m.Leaf("eq", "g", int64(0))), Upd: &m.Updater{Nil: true}}),
 		{Name: "drop-and-recreate", Op: func(int) m.Op { return m.Op{K: "dropColl", Coll: "a"} }, Then: func(int) []m.Op {
 			return []m.Op{{K: "createColl", Coll: "a"}, {K: "insert", Coll: "a", Docs: []m.Doc{bulkDoc(0, 0)}}}
